@@ -159,3 +159,24 @@ def c18(work, tier, seed, replay):
     return dict(violations=viol, coverage=cov, assumptions=ASSUME_CODEC[:1] + [
         "a zero-length read from the underlying connection is its EOF convention and not a frame (never generated)",
         "RFC 768: when the UDP checksum computes to zero both 0xFFFF and 0x0000 (no checksum) are accepted on the wire"])
+
+
+@prop("C19")
+def c19(work, tier, seed, replay):
+    if replay:
+        return replay_file(work, "Trace_Label", replay)
+    vh = common.build_vh(work)
+    mc = common.require_mc(common.tlc(work, "MC_Label", cfg="MC_Label" + ("_thorough" if tier == "thorough" else ""), workers=8, timeout=2400), "MC_Label")
+    tr, stats = common.vh_gen(work, vh, "c19", seed, tier)
+    viol, tstates, n = validate(work, "Trace_Label", tr, stats, procs=8 if tier == "quick" else 12)
+    maxlen = 7 if tier == "thorough" else 6
+    cov = codec_coverage([mc], stats, tstates, n,
+                         "every byte string over {0,1,2,3,'a',0xC0,0x40} up to length %d through rfc1035label.FromBytes (exhaustive), random and "
+                         "mutated wire forms <=512 bytes with compression pointers (also at offsets >=256), lists of 0..8 names x 1..8 labels x "
+                         "1..63 bytes through ToBytes/FromBytes, parsed sets followed by 1..4 edits (in-place set, delete, append, no-op) with "
+                         "an encoding after every step, and the same inputs through the DHCPv4 domain-search, DHCPv6 domain-search-list, FQDN and "
+                         "NTP-FQDN options; non-trivial = non-empty input; distinct by SHA-256" % maxlen, False)
+    cov["exhaustive_small_scope"] = dict(alphabet=[0, 1, 2, 3, 97, 192, 64], max_len=maxlen, strings=sum(7 ** k for k in range(maxlen + 1)))
+    return dict(violations=viol, coverage=cov, assumptions=ASSUME_CODEC[:1] + [
+        "three-way verdict: inputs RFC 1035 gives no meaning to (length octets 64..191, pointer target not strictly earlier) may be rejected or read naturally",
+        "names are compared as byte strings with '.' separators, the representation the library exposes"])
